@@ -21,6 +21,11 @@ RAW = {"deg": [2, 1], "kv": [[[0, 1]] * 3 + [[2, 1]] + [[3, 1]] * 3, [[1, 1], [1
        "P": [[[i, 1], [j, 1], [(i * j + i) % 3, 1]] for i in range(4) for j in range(2)]}
 
 
+# a surface with a pole: the whole first row of control points is one point (collapsed triangles are triangles all the same)
+POLE = {"deg": [2, 1], "kv": [[[0, 1]] * 3 + [[1, 1]] * 3, [[0, 1], [0, 1], [1, 2], [1, 1], [1, 1]]], "size": [3, 3], "rat": False,
+        "P": [[[0, 1], [0, 1], [2, 1]]] * 3 + [[[1, 1], [j, 1], [1, 1]] for j in range(3)] + [[[2, 1], [j * 2, 1], [0, 1]] for j in range(3)]}
+
+
 def lattice(uv, su, sv):
     a, b = uv[0] * (su - 1), uv[1] * (sv - 1)
     ia, ib = round(a), round(b)
@@ -36,7 +41,7 @@ def check_tri(ctx, cs, meshes):
     su, sv, s = c["su"], c["sv"], o["s"]
     tg = ["tri", "spacing=%d" % s] + (["spacing>=3"] if s >= 3 else [])
     small = {"sample_size": [su, sv], "vertex_spacing": s}
-    for si, sh in enumerate(SURFS + ([RAW] if (su, sv) in ((3, 3), (4, 5)) else [])):
+    for si, sh in enumerate(SURFS + ([RAW] if (su, sv) in ((3, 3), (4, 5)) else []) + ([POLE] if (su, sv) in ((3, 4), (5, 3), (4, 4)) else [])):
         ctx.count(("tri", su, sv, s, si), sample={"op": "tri", **small, "n_tris": len(o["tris"])})
         site = "Surface.tessellate"
         if sh is RAW:
@@ -191,6 +196,9 @@ def check_exports(ctx, su, sv, s, scale=1.0):
             operations.scale(o, scale, inplace=True)
         return o
     tg = ["export", "spacing=%d" % s] + (["scale=%g" % scale] if scale != 1.0 else [])
+
+    def unsc(pts_):          # numbers are compared at the scale of the unscaled model (a tiny model keeps all its digits in the files)
+        return [[x / scale for x in q] for q in pts_]
     small = {"sample_size": [su, sv], "vertex_spacing": s, "scale": scale}
     for nsurf in ((1, 2, 3) if scale == 1.0 else (1,)):
         t2 = tg + ["container%d" % nsurf if nsurf >= 2 else "single"]
@@ -220,14 +228,14 @@ def check_exports(ctx, su, sv, s, scale=1.0):
             txt = exchange.export_obj_str(target(), vertex_spacing=s)
             vs = [[float(x) for x in l.split()[1:]] for l in txt.splitlines() if l.startswith("v ")]
             fs = [[int(x) - 1 for x in l.split()[1:]] for l in txt.splitlines() if l.startswith("f ")]
-            if not close_seq(vs, allv, 1e-12) or fs != allf:
+            if not close_seq(unsc(vs), unsc(allv), 1e-12) or fs != allf:
                 ctx.violate("exchange.export_obj_str", t2, small, {"n_v": [len(vs), len(allv)], "n_f": [len(fs), len(allf)], "first_bad_face": next((i for i, (a, b) in enumerate(zip(fs, allf)) if a != b), None)})
             # OFF
             lines = exchange.export_off_str(target(), vertex_spacing=s).splitlines()
             nv, nf = int(lines[1].split()[0]), int(lines[1].split()[1])
             vs = [[float(x) for x in l.split()] for l in lines[2:2 + nv]]
             fs = [[int(x) for x in l.split()[1:]] for l in lines[2 + nv:2 + nv + nf]]
-            if lines[0] != "OFF" or nv != len(allv) or nf != len(allf) or not close_seq(vs, allv, 1e-12) or fs != allf or any(l.split()[0] != "3" for l in lines[2 + nv:2 + nv + nf]):
+            if lines[0] != "OFF" or nv != len(allv) or nf != len(allf) or not close_seq(unsc(vs), unsc(allv), 1e-12) or fs != allf or any(l.split()[0] != "3" for l in lines[2 + nv:2 + nv + nf]):
                 ctx.violate("exchange.export_off_str", t2, small, {"counts": [nv, nf], "expected": [len(allv), len(allf)]})
             # STL (ascii): one facet per triangle, vertices = triangle vertices, normal parallel to (v2 - v1) x (v3 - v2)
             def facet_ok(nrm, tri):
@@ -249,7 +257,7 @@ def check_exports(ctx, su, sv, s, scale=1.0):
             verts = [[float(x) for x in l[1:]] for l in L if l and l[0] == "vertex"]
             tris = [verts[i:i + 3] for i in range(0, len(verts), 3)]
             exp_tris = [[allv[i] for i in f] for f in allf]
-            if len(tris) != len(allf) or not close_seq(tris, exp_tris, 1e-12) or not all(facet_ok(n, t) for n, t in zip(normals, tris)):
+            if len(tris) != len(allf) or not close_seq([unsc(t) for t in tris], [unsc(t) for t in exp_tris], 1e-12) or not all(facet_ok(n, t) for n, t in zip(normals, tris)):
                 ctx.violate("exchange.export_stl_str", t2 + ["ascii"], small, {"facets": [len(tris), len(allf)]})
             raw = exchange.export_stl_str(target(), vertex_spacing=s, binary=True)
             n = struct.unpack("<i", raw[80:84])[0]
@@ -378,6 +386,7 @@ def run(ctx):
     for su, sv, s in ((3, 4, 1), (5, 3, 2), (4, 7, 3), (13, 9, 1), (9, 9, 4)):
         check_exports(ctx, su, sv, s)
     check_exports(ctx, 12, 9, 1, scale=0.001)
+    check_exports(ctx, 4, 5, 1, scale=2.0 ** -40)
     nv = validate_meshes(ctx, meshes) if meshes else 0
     ctx.traces = len(res.cases) + nv
     ctx.extra.update({"cases": ops, "meshes_validated_by_tlc": nv})
